@@ -81,6 +81,13 @@ def gen_side(rng, prefix, allow_cat=True):
                                     all_derived=rng.random() < 0.3, sv_style=rng.choice(["pad", "dec"]))
     else:
         items = shim_api.make_items(n, idpat, prefix)
+    if kind == "ca" and rng.random() < 0.35:
+        # elements without the optional `value.id` (one / all): the library has no sub-variable ids at all then
+        # (CA only: an MR dimension with an id-less element cannot be built)
+        noid = rng.choice(["first", "last", "all"])
+        for j, it in enumerate(items):
+            if noid == "all" or (noid == "first" and j == 0) or (noid == "last" and j == n - 1):
+                it["no_id"] = True
     dim = shim_api.lean_dim(items, mr_ins)
 
     def ref(k=None):
@@ -128,7 +135,7 @@ def gen_hist(rng):
         cols = None                      # CA_SUBVAR x CA_CAT: the columns are the CA's categories
     if cols is not None and cols["kind"] == "ca":
         rows = None                      # CA_CAT x CA_SUBVAR
-    three_d = rng.random() < 0.6 and not ((rows and rows["kind"] == "ca") or (cols and cols["kind"] == "ca"))
+    three_d = rng.random() < 0.6
     ntab = rng.randint(2, 3) if three_d else 0
     nparts = ntab if three_d else 1
     ops = [{"op_kind": "new"}]
@@ -175,6 +182,8 @@ def hist_build(case):
     for side, alias in ((rows, "r"), (cols, "c")):
         if side is not None and side.get("mr_ins"):
             shim_api.add_mr_insertions(resp, alias, side["items"])
+        if side is not None and any(it.get("no_id") for it in side["items"]):
+            shim_api.drop_subvar_ids(resp, alias, side["items"])
     tr = {}
     for side, name in ((rows, "rows_dimension"), (cols, "columns_dimension")):
         if side is None:
@@ -440,6 +449,19 @@ def gen_diffs(rng):
             "diffs": True, "focus": "population", "pairwise": None, "measures": False}
 
 
+def gen_smooth(rng):
+    """categorical-date columns (rows for a strand) with a smoother transform: supported, defaulted, UNSUPPORTED function
+    names, good and bad windows; a read that raises must keep raising, a read that falls back must keep falling back"""
+    kinds = rng.choice([["cat", "cat_date"], ["cat", "cat_date"], ["cat_date", "cat_date"], ["mr", "cat_date"],
+                        ["cat", "cat", "cat_date"], ["cat_date"]])
+    sm = {"function": rng.choice(["one_sided_moving_avg", None, "unsupported_fn", "unsupported_fn", "box"]),
+          "window": rng.choice([2, 3, 2, 0, 1, 99, None])}
+    return {"t": "api", "kinds": kinds, "seed": rng.randrange(1 << 30), "nsched": rng.randint(8, 16),
+            "population": rng.choice([None, 1000]), "min_base": 0, "with_set": False, "ncubes": rng.choice([1, 2]),
+            "mrins": False, "holes": False, "numeric_all": True, "no_missing": rng.random() < 0.6, "pairwise": None,
+            "measures": rng.random() < 0.5, "smooth": {k: v for k, v in sm.items() if v is not None}, "focus": "smooth"}
+
+
 def gen_scale(rng):
     """cubes with numeric values on every category and NaN / null holes in the weighted count payload:
     the scale-mean / median / std-dev family reads (and rewrites?) the same cached count arrays"""
@@ -556,6 +578,8 @@ def api_build(case):
                 t["insertions"] = ins
         if rng.random() < 0.3:
             t["prune"] = True
+        if case.get("smooth") is not None:
+            t["smoother"] = dict(case["smooth"])
         if t:
             tr[name] = t
     if case.get("pairwise") and len(sides) == 2:
@@ -672,6 +696,9 @@ def eval_api(case, louts, ctx):
                 names = [n for n in names if "scale" in n or n in ("counts", "means", "medians", "stddev", "sums", "rows_margin",
                                                                    "columns_margin", "table_proportions", "unweighted_counts",
                                                                    "rows_base", "smoothed_means")]
+            if case.get("focus") == "smooth" and "." in t:
+                names = [n for n in names if "smooth" in n or n in ("column_proportions", "column_percentages", "column_index",
+                                                                   "means", "counts", "columns_scale_mean", "table_proportions")]
             if case.get("focus") == "population" and "." in t:
                 keys = ("population", "proportion", "percentages", "std_err", "std_dev", "moe", "variances", "zscores",
                         "pvals", "column_index", "share_sum", "counts", "margin")
@@ -691,6 +718,31 @@ def eval_api(case, louts, ctx):
                 rest = [n for n in names if n != a]
                 rng.shuffle(rest)
                 orders.append(([a] + rest, "first"))
+            # ... and every property read FOUR times in a row on one object: a read that raises must keep raising (the
+            # same exception), a value must stay the value
+            o4 = make_objects(dict(case, ncubes=1), copy.deepcopy(resp0), copy.deepcopy(tr0))
+            try:
+                target4 = resolve_target(o4, t)
+            except Exception:  # noqa
+                target4 = None
+            if target4 is not None:
+                for n in names:
+                    want = fresh(t, n)
+                    for rep in range(4):
+                        got = read(target4, n)
+                        ok, where = common.deep_close(got, want)
+                        if not ok:
+                            cls = t.split(".")[0].rstrip("0123456789")
+                            part = ".partition" if "." in t else ""
+                            findings.append(F("spec", "api.%s%s.reread-differs" % (cls, part),
+                                              "%s: read #%d of %s.%s on one object gives %s, a fresh read gives %s (%s)" %
+                                              (desc, rep + 1, t, n, sc.jdump(got)[:160], sc.jdump(want)[:160], where)))
+                            nerr += 1
+                            break
+                    if nerr:
+                        break
+            if nerr:
+                break
             for order, tag in orders:
                 o2 = make_objects(dict(case, ncubes=1), copy.deepcopy(resp0), copy.deepcopy(tr0))
                 try:
@@ -1052,6 +1104,8 @@ def generate(ctx):
         cases.append(gen_waves(rng))
     for _ in range(ctx.n(12, 300)):
         cases.append(gen_diffs(rng))
+    for _ in range(ctx.n(20, 300)):
+        cases.append(gen_smooth(rng))
     for _ in range(ctx.n(80, 600)):
         cases.append(dict(gen_api(rng), t="forms"))
     for _ in range(ctx.n(120, 900)):
